@@ -72,7 +72,7 @@ def base_env(extra=None):
     return env
 
 
-def run(argv, cwd=None, timeout=30, env=None, stdin=None, mem_mb=4096, stack_mb=64, asan=False):
+def run(argv, cwd=None, timeout=30, env=None, stdin=None, mem_mb=4096, stack_mb=8, asan=False):
     """Run argv; never raises on failure of the child."""
     if env is None:
         env = base_env()
